@@ -5,7 +5,14 @@ V = os.path.dirname(os.path.dirname(os.path.abspath(__file__)))
 TECH = "bounded symbolic execution of the real Python source (symx: z3 bit-vector terms behind int/bytes proxies, every branch and obligation decided by the solver, counterexamples and one witness per path replayed natively)"
 NOTE = "trusted: CPython semantics as modelled by the proxies (validated per path by native replay), the loader's two AST rewrites, z3 (sampled queries re-decided by z3 4.8.12 and cvc5), the hand-written environment models and oracles listed in the evidence, the stated bounds"
 CHECKS = {
- "C11": ("§4 C11", "for every field value of the 14 PDU classes (symbolic, full ranges) decode(encode(p)) equals p field-wise and len(p)==len(encode(p)); for every byte string up to 6 (thorough 8) bytes decode is DecodeError or agrees with an independent reference decoder and re-encodes to an equal PDU; sub-PDUs of an aggregate equal the decoding of their own bytes. Exhaustive within those bounds, nothing claimed beyond."),
+ "C01": ("§4 C01", "for the listed Type 1/2/3/4 layouts (data-area sizes, control-TLV placements, Nbr/Nbw/Nmaxb, symbolic MLe/MLc over 1..FFFFh, the library's own Type 3 emulation) and message lengths from boundary sets, with all message bytes and all previous tag contents symbolic: the setter succeeds up to the reported capacity, a fresh activation reads back exactly the octets (proved as a formula), capacity <= what the layout holds, oversize is rejected before any command. Exhaustive over paths within those bounds."),
+ "C02": ("§4 C02", "power cut before each state-changing command (lazy symbolic cut point) of an NDEF write on Type 1/2/3/4 worlds incl. NDEF TLV offsets 0..3 mod 4 and old/new lengths on both sides of 254/255; a fresh reader then sees none/unreadable/empty/old/new, proved for all contents. Known finding: Type 1 dynamic 3-byte length across a block boundary."),
+ "C03": ("§4 C03", "every write command of an NDEF write or format(wipe) on Type 1/2/3/4 worlds leaves all bytes outside the NDEF message area (computed by the harness from the layout it generated) at their symbolic previous values, after every prefix of the operation, and addresses a unit that intersects the area."),
+ "C06": ("§4 C06", "real SNEP client and server fragment code as a strictly alternating pair over a reliable socket model with symbolic MIU (6..24 and real-range values), message bytes, acceptable lengths; handover with concrete messages and symbolic MIU: octets arrive identical, once; oversize is refused whole. Layer composition down to radio frames is outside the claim."),
+ "C11": ("§4 C11", "for every field value of the 14 PDU classes (symbolic, full ranges) decode(encode(p)) equals p field-wise and len(p)==len(encode(p)); for every byte string up to 6 (thorough 8) bytes decode is DecodeError or agrees with an independent reference decoder and re-encodes to an equal PDU; sub-PDUs of an aggregate equal the decoding of their own bytes. Exhaustive within those bounds."),
+ "C15": ("§4 C15", "every driver call made through every public ContactlessFrontend entry point within the C18 scenario bounds happens with the frontend lock held and the device installed; every syntactic self.device call site (AST scan of the current source) is reached by an explored path. The lock implementation and real thread schedules are outside the claim."),
+ "C18": ("§4 C18", "connect()/sense()/listen()/exchange() over a recording scripted driver with enumerated option sets, callback results, terminate times and environments (tag, peer, reader), symbolic tag/peer bytes: callback order and counts, return values and driver-call discipline as documented. Known findings: on-release skipped when the driver raises after on-connect; SystemExit from llc.run."),
+ "C20": ("§4 C20", "NTAG21x/Ultralight EV1: authenticate(p) true iff stored PWD/PACK equal the key derived from p, for all passwords, stored values and in-transit PACK changes (pure solver claim over 2^96 pairs). FeliCa Lite/Lite-S: the same under an ideal block cipher replacing pyDes (uninterpreted, injective), incl. read_with_mac tamper detection and write_with_mac; the DES computation itself is outside the claim."),
 }
 NA = {}
 def main():
